@@ -119,6 +119,7 @@ func runSweep(c *Case) {
 		}
 	}
 	c.sweepViol = m.viol
+	c.skips = m.skipped
 	if c.Zone.Fixed {
 		c.Impl = []Res{rZ(int64(dg.acc & 0x7fffffffffffffff))}
 	} else {
